@@ -32,7 +32,7 @@ ASSUMPTIONS = [
 ]
 
 TEXT_DTYPES = ["object", "str", "string[python]", "string[pyarrow]", "arrow_string", "arrow_large_string", "mixed_object"]
-CAT_DTYPES = ["category", "category_ordered", "category_unsorted", "category_int", "category_unused"]
+CAT_DTYPES = ["category", "category_ordered", "category_unsorted", "category_int", "category_unused", "category_bool"]
 NUM_DTYPES = ["int8", "int16", "int32", "int64", "uint8", "uint16", "uint32", "uint64", "Int64", "float32", "float64", "Float64",
               "bool", "boolean", "arrow_int64", "arrow_float64"]
 LEVELS = ["b", "a", "c"]
@@ -67,6 +67,8 @@ def make_col(dtype, vals, levels, with_null):
     if dtype == "category_int":
         m = {lv: i * 10 for i, lv in enumerate(levels)}
         return pd.Categorical([None if x is None else m[x] for x in v], categories=[m[lv] for lv in levels])
+    if dtype == "category_bool":  # truth values as categories, declared True first
+        return pd.Categorical([None if x is None else (x == levels[0]) for x in v], categories=[True, False])
     raise ValueError(dtype)
 
 
@@ -160,6 +162,9 @@ def judge(case) -> Outcome:
     out.sig = (dtype, mat, output, usage, len(case["levels"]), tuple(case["levels"]) == tuple(sorted(case["levels"])))
     with_null = usage == "nulls"
     is_num = dtype in NUM_DTYPES
+    if dtype == "category_bool" and mat == "arrow":  # (what a dictionary of booleans becomes on the way through arrow/narwhals is third-party behaviour)
+        out.decided = False
+        return out
     # a text column may start with any number of missing entries (libraries that sniff the leading values see no text there)
     prefix = 0 if is_num or usage == "two" else case.get("null_prefix", 100 if usage == "late" else 0)
     vals = [None] * prefix + list(case["vals"])
@@ -250,6 +255,9 @@ def judge(case) -> Outcome:
             m = {lv: i * 10 for i, lv in enumerate(case["levels"])}
             levels = [m[lv] for lv in case["levels"]]
             vals = [None if v is None else m[v] for v in vals]
+        if dtype == "category_bool":
+            levels = [True, False]
+            vals = [None if v is None else (v == case["levels"][0]) for v in vals]
     else:
         levels = observed
         if dtype == "category_int":
